@@ -13,7 +13,7 @@ PROP = {
             "or the case lies within 1e-3 (relative) of a documented threshold; cases within rounding slack of a threshold (either branch's documented answer accepted) and cases whose "
             "angular clause is vacuous (bound above 1 rad) are tallied as boundary and not counted. distinct = distinct hash of (type, backend, operand bits).",
     "builds": {
-        "quick": [B("stable"), B("nightly", 0.25, False)],
+        "quick": [B("stable"), B("fma", 0.25), B("nightly", 0.25, False)],
         "thorough": [B("stable"), B("fma", 0.5), B("nightly", 0.5, False)],
     },
     "volume": {"quick": 3},
